@@ -129,7 +129,7 @@ const PURE_PRIMS: &[&str] = &[
     "hash-try-get", "hash-contains?", "hash-remove", "hash-length", "hash-empty?", "hash?", "string-append", "string-length", "substring", "string=?",
     "string<?", "string->symbol", "symbol->string", "string?", "symbol?", "number->string", "string->number", "string-upcase", "string-downcase",
     "string-ref", "string", "make-string", "string->list", "list->string", "char->integer", "integer->char", "char=?", "char<?", "char?", "char-upcase",
-    "char-downcase", "equal?", "eqv?", "eq?", "not", "boolean?", "procedure?", "void",
+    "char-downcase", "equal?", "eqv?", "eq?", "not", "boolean?", "procedure?", "void", "#%gc-collect",
 ];
 
 impl DomainCheck {
